@@ -156,9 +156,14 @@ def _parse_run(out, nonce, n):
         if si < 0:
             break
         stdout = body[:si]
-        st = body[si:].strip().split(" ")
-        status = st[2]
-        msg = bytes.fromhex(st[3][1:]).decode("utf-8", errors="replace") if len(st) > 3 else ""
+        # only the STATUS line itself: a program that is still printing when the hook's watchdog reports it can get
+        # further lines in between the watchdog's STATUS and END lines
+        st = body[si:].split("\n", 1)[0].strip().split(" ")
+        status = st[2] if len(st) > 2 else "died:format"
+        try:
+            msg = bytes.fromhex(st[3][1:]).decode("utf-8", errors="replace") if len(st) > 3 else ""
+        except ValueError:
+            msg = ""
         res.append({"stdout": stdout, "status": status, "stderr": msg})
         pos = ei + len(e)
     return res
